@@ -25,7 +25,29 @@ import (
 	tls "github.com/refraction-networking/utls"
 )
 
-var c13Scenarios = []string{"plain", "retry", "vn", "longchain", "resume", "0rtt-accept", "0rtt-reject"}
+// (new scenarios are appended: replay files and the quick-tier selections refer to scenarios by index)
+var c13Scenarios = []string{"plain", "retry", "vn", "longchain", "resume", "0rtt-accept", "0rtt-reject",
+	"0rtt-retry-accept", // resumption with 0-RTT against a server that validates the address with a Retry: the early data leaves before the Retry arrives
+	"0rtt-retry-reject", // the same, and the server's configuration changed: Retry first, then 0-RTT is rejected
+}
+
+// scenario traits
+func c13UsesRetry(scen string) bool {
+	return scen == "retry" || scen == "0rtt-retry-accept" || scen == "0rtt-retry-reject"
+}
+func c13Early(scen string) bool { // DialEarly with a resumable session, stream data written before the handshake completes
+	return scen == "0rtt-accept" || scen == "0rtt-reject" || scen == "0rtt-retry-accept" || scen == "0rtt-retry-reject"
+}
+func c13Rejects0RTT(scen string) bool { return scen == "0rtt-reject" || scen == "0rtt-retry-reject" }
+func c13TwoPhase(scen string) bool    { return scen == "resume" || c13Early(scen) }
+
+// c13KindsFor: the client kinds a scenario runs with.
+func c13KindsFor(si int) []string {
+	if c13TwoPhase(c13Scenarios[si]) {
+		return []string{"plain"} // the built-in fingerprints carry no pre_shared_key extension
+	}
+	return []string{"plain", "chrome115"}
+}
 
 var c13Injections = []string{
 	"vn-other-versions",   // Version Negotiation not listing the client's version
@@ -33,7 +55,7 @@ var c13Injections = []string{
 	"retry-bad-tag",       // Retry with an invalid integrity tag (must always be ignored)
 	"retry-valid-tag",     // Retry with a valid tag, attacker-chosen connection ID
 	"retry-wrong-odcid",   // Retry whose tag was computed over a different original DCID
-	"retry-replay",        // replay of the genuine Retry (retry scenario only)
+	"retry-replay",        // replay of the genuine Retry (scenarios with a Retry only)
 	"initial-wrong-scid-close",
 	"initial-wrong-scid-crypto",
 	"dup-earlier",     // duplicate of the first genuine server datagram
@@ -129,7 +151,7 @@ func c13Run(t *testing.T, cfg c13Config) c13Result {
 		w := sim.NewWorld(nil)
 		ctx, cancel := context.WithTimeout(context.Background(), 3*time.Minute)
 		defer cancel()
-		sconf := &quic.Config{Allow0RTT: scen == "0rtt-accept" || scen == "0rtt-reject"}
+		sconf := &quic.Config{Allow0RTT: c13Early(scen)}
 		cconf := &quic.Config{}
 		if scen == "vn" {
 			sconf.Versions = []quic.Version{quic.Version2}
@@ -137,7 +159,7 @@ func c13Run(t *testing.T, cfg c13Config) c13Result {
 		}
 		stls := w.ServerTLS(scen == "longchain")
 		ln, err := w.ListenWith(stls, sconf, func(tr *quic.Transport) {
-			if scen == "retry" {
+			if c13UsesRetry(scen) {
 				tr.VerifySourceAddress = func(net.Addr) bool { return true }
 			}
 		})
@@ -191,7 +213,7 @@ func c13Run(t *testing.T, cfg c13Config) c13Result {
 			kind = sim.Parrot("chrome115", quic.QUICChrome_115)
 		}
 		d, _, _ := w.NewDialer(kind)
-		twoPhase := scen == "resume" || scen == "0rtt-accept" || scen == "0rtt-reject"
+		twoPhase := c13TwoPhase(scen)
 		if twoPhase {
 			// phase 1: a clean connection that obtains a session ticket
 			c1, err := d.Dial(ctx, w.ServerAddr, ctls, cconf)
@@ -205,7 +227,7 @@ func c13Run(t *testing.T, cfg c13Config) c13Result {
 				c1.CloseWithError(0, "")
 				time.Sleep(100 * time.Millisecond)
 			}
-			if scen == "0rtt-reject" {
+			if c13Rejects0RTT(scen) {
 				// the server comes back with a different configuration: 0-RTT must be rejected
 				ln.Close()
 				sconf2 := &quic.Config{Allow0RTT: true, MaxIncomingStreams: 7}
@@ -256,7 +278,7 @@ func c13Run(t *testing.T, cfg c13Config) c13Result {
 		t0 := time.Now()
 		var conn *quic.Conn
 		var derr error
-		early := scen == "0rtt-accept" || scen == "0rtt-reject"
+		early := c13Early(scen)
 		if early {
 			conn, derr = d.DialEarly(ctx, w.ServerAddr, ctls, cconf)
 		} else {
@@ -278,6 +300,9 @@ func c13Run(t *testing.T, cfg c13Config) c13Result {
 			case <-ctx.Done():
 				derr = ctx.Err()
 			}
+			// (the handshake is over here; the time the echo of the early data takes is judged by
+			// the 0-RTT delivery oracle, not by the Dial deadline)
+			res.DialTook = time.Since(t0)
 			if derr == nil {
 				if err == nil {
 					var echo []byte
@@ -294,7 +319,9 @@ func c13Run(t *testing.T, cfg c13Config) c13Result {
 				}
 			}
 		}
-		res.DialTook = time.Since(t0)
+		if !early {
+			res.DialTook = time.Since(t0)
+		}
 		_ = phaseStart
 		if derr != nil {
 			res.DialErr = sim.ErrClass(derr)
@@ -485,12 +512,12 @@ func c13Judge(cfg c13Config, r, base c13Result) *explore.Fail {
 		return explore.Failf(key("no-convergence:"+r.DialErr), "%v: with %d faults and no attacker the handshake did not complete: %s", cfg, len(cfg.Faults), r.DialErr)
 	}
 	// (5) 0-RTT data exactly once if accepted, never if rejected
-	switch scen {
-	case "0rtt-accept":
+	switch {
+	case c13Early(scen) && !c13Rejects0RTT(scen):
 		if r.Completed && (r.ZeroRTTSeen != 1 || r.ZeroRTTErr != "") {
 			return explore.Failf(key("0rtt-delivery"), "%v: 0-RTT accepted (%s) but the server application saw the payload %d times (stream error %q)", cfg, r.Client, r.ZeroRTTSeen, r.ZeroRTTErr)
 		}
-	case "0rtt-reject":
+	case c13Rejects0RTT(scen):
 		if r.ZeroRTTSeen != 0 {
 			return explore.Failf(key("0rtt-delivered-after-rejection"), "%v: 0-RTT was rejected but the server application received the payload %d times", cfg, r.ZeroRTTSeen)
 		}
@@ -580,13 +607,7 @@ func TestVerifC13(t *testing.T) {
 			},
 		}
 	}
-	kindsFor := func(si int) []string {
-		switch c13Scenarios[si] {
-		case "resume", "0rtt-accept", "0rtt-reject":
-			return []string{"plain"} // the built-in fingerprints carry no pre_shared_key extension
-		}
-		return []string{"plain", "chrome115"}
-	}
+	kindsFor := c13KindsFor
 	allFates := []sim.Fate{sim.Drop, sim.Dup, sim.Delay, sim.DelayLong, sim.Flip0, sim.Flip7, sim.FlipMid, sim.FlipLast, sim.Trunc1, sim.Trunc20, sim.TruncLast, sim.FlipSCID}
 	few := []sim.Fate{sim.Drop, sim.Dup, sim.Delay}
 	parts := []explore.Part{
@@ -615,14 +636,14 @@ func TestVerifC13(t *testing.T) {
 					}
 				}
 			}
-			return cfgs, fmt.Sprintf("%d scenarios (no Retry, Retry, version negotiation, long certificate chain, resumption, 0-RTT accepted, 0-RTT rejected) x client kinds x every fault map with 1 fault (12 fates, one of them a bit flip in the source connection ID) among the first 6 handshake datagrams of each direction (thorough: also 2 faults from {drop,dup,delay} among the first 5)", len(c13Scenarios))
+			return cfgs, fmt.Sprintf("%d scenarios (no Retry, Retry, version negotiation, long certificate chain, resumption, 0-RTT accepted, 0-RTT rejected, 0-RTT accepted after a Retry, 0-RTT rejected after a Retry; in the 0-RTT scenarios the early stream data is written before the first server packet arrives) x client kinds x every fault map with 1 fault (12 fates, one of them a bit flip in the source connection ID) among the first 6 handshake datagrams of each direction (thorough: also 2 faults from {drop,dup,delay} among the first 5)", len(c13Scenarios))
 		}),
 		mkPart("injections", func(e explore.Env) ([]c13Config, string) {
 			var cfgs []c13Config
 			for si := range c13Scenarios {
 				for _, k := range kindsFor(si) {
 					for ik, iname := range c13Injections {
-						if iname == "retry-replay" && c13Scenarios[si] != "retry" {
+						if iname == "retry-replay" && !c13UsesRetry(c13Scenarios[si]) {
 							continue
 						}
 						for d := sim.C2S; d <= sim.S2C; d++ {
@@ -661,7 +682,7 @@ func TestVerifC13(t *testing.T) {
 					}
 					for k1, n1 := range c13Injections {
 						for k2, n2 := range c13Injections {
-							if (n1 == "retry-replay" || n2 == "retry-replay") && c13Scenarios[si] != "retry" {
+							if (n1 == "retry-replay" || n2 == "retry-replay") && !c13UsesRetry(c13Scenarios[si]) {
 								continue
 							}
 							if !e.Thorough() && !(c13PairKind(n1) && c13PairKind(n2)) {
